@@ -354,7 +354,7 @@ impl<'a> Interp<'a> {
             },
             X::EventName => V::Str(self.event.clone().ok_or(())?),
             X::IntArr(a) => V::Arr(a.iter().map(|i| V::Int(*i)).collect()),
-            X::Bad(_) => return Err(()),
+            X::Bad(_) | X::Raw(_) => return Err(()),
         })
     }
 
@@ -492,13 +492,15 @@ impl<'a> Interp<'a> {
                     false
                 }
             },
-            C::Log(x) | C::Script(x) => match self.eval(x) {
+            C::Log(x) | C::Script(x) | C::LogLabel { expr: x, .. } => match self.eval(x) {
                 Ok(_) => true,
                 Err(()) => {
                     self.error_execution();
                     false
                 }
             },
+            // only used in documents that are parsed / serialised but never executed by the model
+            C::Send(_) | C::Cancel { .. } | C::AssignText { .. } => true,
         }
     }
 
